@@ -56,6 +56,9 @@ P.update({
  "C12": dict(live=True, cat="proof", technique="Coq proofs of preimage counts (uniform, ternary by finite vm_compute sweep, rejection step) and of reservoir-sampling uniformity for all (h,m) + exhaustive tape enumeration against the formulas",
    text="Uniform: residue r has exactly the preimages r, r+p; ternary: for all 256 thresholds #non-zero = rho+1, imbalance <= 2, 0 for 0x7F; reservoir sampling: every h-subset occurs m! times over all draw tuples (all h, m); rejection step uniform on [0,k]. Exhaustive enumeration on the real code: all 2^16 words through both 16-bit moduli, every masked word for each (B,A), all 256 bytes per threshold, every reduced index tape for every (n,h) with n in {2,4,8} (thorough: up to 40 320 tapes) - measured multiplicities must equal the proved formulas. Found and fixed: reservoir index drawn from [0,k).",
    note=TB + "The slot-array -> subset refinement of hwt_dist is tied by exhaustive enumeration for n <= 8, not proved in general."),
+ "C17": dict(live=True, cat="proof", technique="Coq determinism theorem over all schedules of the interleaving model (disjoint footprints) + static-state audit of the binary + table digests + multi-threaded workload vs sequential under ThreadSanitizer",
+   text="C17_deterministic: for all programs of well-behaved operations with pairwise disjoint footprints and all schedules, each thread ends with its sequential result. The gap between model and code (an operation that writes shared state) is checked on the binary: nm audit of every writable nfl symbol against the modelled set (poly::base, poly::gmp and their guards; generator state belongs to C18), digests of base/gmp before and after, and a 2..16-thread workload (construct, +,-,*, shoup, transforms, ==, big-integer conversion both ways, serialise, poly_p) whose per-thread digests must equal the sequential ones, also under TSan.",
+   note=TB + "Partial: real data races are run-time phenomena; TSan + audit are supporting evidence for the model's footprint assumption."),
 })
 ALL = ["C%02d" % i for i in range(1, 20)]
 checks, na = [], []
